@@ -149,11 +149,21 @@ class AxisTaint:
             return None
         if o == "sub":
             ob = t.obj
-            if ob.op == "if" and ob.cond.op == "call" and ob.cond.fn.op == "ref" and ob.cond.fn.ref.qual.endswith("isinstance") and len(ob.cond.args) == 2 and ob.cond.args[1].op == "ref" and ob.cond.args[1].ref.qual in ("builtins.tuple", "builtins.list"):
-                # subscripting / unpacking implies the value is a sequence (an int would raise TypeError)
-                self.of(t.idx, safe)
-                v = self.of(ob.then, safe)
-                return AX if v == AX and t.idx.op in ("const", "slice") else None
+            if ob.op == "call":
+                inl = self.ev.inline(ob)
+                if inl is not None and inl.op in ("if", "seq"):
+                    ob = inl
+                    while ob.op == "seq":
+                        ob = ob.value
+            if ob.op == "if":
+                from ..tutil import atom
+
+                ca, cpol = atom(ob.cond)
+                if ca.op == "call" and ca.fn.op == "ref" and ca.fn.ref.qual.endswith("isinstance") and len(ca.args) == 2 and ca.args[1].op == "ref" and ca.args[1].ref.qual in ("builtins.tuple", "builtins.list"):
+                    # subscripting / unpacking implies the value is a sequence (an int would raise TypeError)
+                    self.of(t.idx, safe)
+                    v = self.of(ob.then if cpol else ob.other, safe)
+                    return AX if v == AX and t.idx.op in ("const", "slice") else None
             v = self.of(t.obj, safe)
             self.of(t.idx, safe)
             if t.idx.op == "const" and isinstance(t.idx.value, int):
